@@ -99,6 +99,9 @@ class Explorer:
                     env.vals[l] = env.vals[src]
                 if src in env.links:
                     env.links[l] = env.links[src]
+                elif src not in env.vals and self.trackable(src) and self.body.local_ty(src) == "bool":
+                    # plain copy of a bool whose value is not known yet: a later switch on the copy also decides the source
+                    env.links[l] = ("copy", src)
             else:
                 c = op_const(rv[1])
                 if c and c[1] is not None and c[0] == "bool":
@@ -205,9 +208,12 @@ class Explorer:
             self._learn(e, l, link, val)
             out.append((bb, e))
         e = env.copy()
+        if link is None and l is not None and len(arms) == 1 and arms[0][0] in (0, 1) and self.trackable(l) \
+                and self.body.local_ty(l) == "bool":
+            e.vals[l] = 1 - arms[0][0]
         if link is not None and len(arms) == 1:
             # two-valued domains: otherwise is the other value
-            dom2 = link[0] in ("bool", "disc", "branch")
+            dom2 = link[0] in ("bool", "disc", "branch", "copy", "map")
             if dom2 and arms[0][0] in (0, 1):
                 self._learn(e, l, link, 1 - arms[0][0], only_if_binary=True)
         out.append((otherwise, e))
@@ -236,6 +242,11 @@ class Explorer:
             env.vals[src] = val if is_res else 1 - val
             if src in env.links:
                 self._learn(env, src, env.links.get(src), env.vals[src])
+        elif kind == "copy":
+            src = link[1]
+            env.vals[src] = val
+            if src in env.links:
+                self._learn(env, src, env.links.get(src), val)
         elif kind == "map":
             _, src, same = link
             env.vals[src] = val if same else 1 - val
